@@ -157,6 +157,20 @@ func edgeFacts(pred, succ *ssa.BasicBlock) []Fact {
 	return out
 }
 
+// edgeOnly returns just the branch fact of the edge pred -> succ.
+func edgeOnly(pred, succ *ssa.BasicBlock) []Fact {
+	if len(pred.Instrs) > 0 {
+		if ifi, ok := pred.Instrs[len(pred.Instrs)-1].(*ssa.If); ok && pred.Succs[0] != pred.Succs[1] {
+			if pred.Succs[0] == succ {
+				return []Fact{{ifi.Cond, true}}
+			} else if pred.Succs[1] == succ {
+				return []Fact{{ifi.Cond, false}}
+			}
+		}
+	}
+	return nil
+}
+
 func isConstBool(v ssa.Value) (bool, bool) {
 	c, ok := v.(*ssa.Const)
 	if !ok || c.Value == nil || c.Value.Kind() != constant.Bool {
